@@ -4,6 +4,7 @@ package main
 
 import (
 	"go/ast"
+	"go/token"
 	"strings"
 )
 
@@ -225,13 +226,86 @@ func c25FlushesAtCountBound(s *c02Src) (Tri, string) {
 	return Unknown, c02Where(s.b, add)
 }
 
-// the block-reader facts the model's reader relies on (same detectors as C04)
+// the block-reader facts the model's reader relies on.  Same questions as C04 asks of ParseBlock, answered
+// with `unknown` (never `no`) for a shape this extractor does not know: `no` only when the check is absent.
 func c25ReaderAssumptions(fs *Facts, s *c02Src) {
-	ty, err := Load(c01Types)
-	if err != nil {
-		ty = nil
+	names := []string{"validatesCrc", "crcBeforeDecompress", "validatesULen", "boundsDecodedLen", "parseConsumesAll"}
+	res := map[string]Tri{}
+	for _, n := range names {
+		res[n] = Unknown
 	}
-	c04ParseBlock(fs, s.b, ty)
+	where := c02Block
+	defer func() {
+		for _, n := range names {
+			fs.Tri(n, res[n], where)
+		}
+	}()
+	ty, err := Load(c01Types)
+	if err != nil || s.b == nil {
+		return
+	}
+	fd := s.b.Func("", "ParseBlock")
+	if fd == nil {
+		return
+	}
+	where = c02Where(s.b, fd)
+	vc, cc := ty.Func("", "ValidateChecksum"), ty.Func("", "CalculateChecksum")
+	crcFn := vc != nil && cc != nil && ty.Contains(vc.Body, "CalculateChecksum(data) == expected") && ty.Contains(cc.Body, "crc32.ChecksumIEEE(data)")
+	dec := s.b.Calls(fd.Body, "snappyCompressor.Decompress")
+	if len(dec) != 1 {
+		return
+	}
+	decPos := dec[0].Pos()
+	// the entry loop: a `for` or a `for range` whose body calls Deserialize
+	var loopEnd token.Pos
+	ast.Inspect(fd.Body, func(x ast.Node) bool {
+		switch l := x.(type) {
+		case *ast.ForStmt:
+			if loopEnd == token.NoPos && s.b.Contains(l.Body, ".Deserialize(") {
+				loopEnd = l.End()
+			}
+		case *ast.RangeStmt:
+			if loopEnd == token.NoPos && s.b.Contains(l.Body, ".Deserialize(") {
+				loopEnd = l.End()
+			}
+		}
+		return true
+	})
+	body := s.b.Str(fd.Body)
+	// absent checks are `no`; present in a shape not recognised below stay `unknown`
+	if !strings.Contains(body, "ValidateChecksum") && !strings.Contains(body, "Checksum") {
+		res["validatesCrc"], res["crcBeforeDecompress"] = No, No
+	}
+	if !strings.Contains(body, "UncompressedSize") {
+		res["validatesULen"] = No
+	}
+	if !strings.Contains(body, "DecodedLen") {
+		res["boundsDecodedLen"] = No
+	}
+	if !strings.Contains(body, "len(uncompressed)") || strings.Count(body, "offset") < 2 {
+		res["parseConsumesAll"] = No
+	}
+	for _, is := range c04Ifs(s.b, fd.Body) {
+		c := c04Cond(s.b, is)
+		bad := c04RetMentions(s.b, is, "ErrCorruptedBlock")
+		switch {
+		case c == "!ValidateChecksum(compressedData,header.Checksum)" && bad:
+			if crcFn {
+				res["validatesCrc"] = Yes
+			}
+			res["crcBeforeDecompress"] = TriOf(is.Pos() < decPos)
+		case c == "uint32(len(uncompressed))!=header.UncompressedSize" && bad && is.Pos() > decPos:
+			res["validatesULen"] = Yes
+		case bad && is.Pos() < decPos && strings.Contains(c, "32*len(compressedData)+64") && (strings.Contains(c, "DecodedLen") || strings.Contains(c, "dLen") || strings.Contains(c, "declared")):
+			res["boundsDecodedLen"] = Yes
+		case bad && (c == "offset!=len(uncompressed)" || c == "len(uncompressed)!=offset"):
+			if loopEnd != token.NoPos && is.Pos() > loopEnd {
+				res["parseConsumesAll"] = Yes
+			} else {
+				res["parseConsumesAll"] = Unknown
+			}
+		}
+	}
 }
 
 // FileWriter.WriteEntry: does it return the error of the flush it triggers?
